@@ -495,6 +495,13 @@ func (self Value) getByPath(pathes ...Path) (Value, []int) {
 			if i == len(pathes)-1 && err == errNotFound {
 				return Value{errNotFoundLast(nil, tt), nil, false}, address
 			}
+			// a repeated or map field is absent and the next path item, the last one, addresses an element of it.
+			// The element can be inserted together with the field: it is the MESSAGE that lacks a child, at this position
+			if i == len(pathes)-2 && err == errNotFound && (desc.Type() == proto.LIST || desc.Type() == proto.MAP) &&
+				pathMismatch(i+1, pathes[i+1].t, desc.Type(), desc) == "" {
+				address[i+1] = start
+				return Value{errNotFoundLast(nil, tt), nil, false}, address
+			}
 			return errValueOf("invalid value node.", err), address
 		}
 		// if not the last one, it must be a complex node, so need to skip tag (searchIndex reads the tag of a LIST itself)
@@ -576,9 +583,12 @@ func (self *Value) SetByPath(sub Node, path ...Path) (exist bool, err error) {
 		return false, v
 	}
 
+	// the repeated or map field that holds the target may be absent itself: getByPath then reports the MESSAGE as the node lacking a child
+	fieldAbsent := v.IsError() && v.kt == proto.MESSAGE && path[l-1].t != PathFieldId && path[l-1].t != PathFieldName
+
 	// whether the target is an element inside the bytes of a packed list
 	isPacked := false
-	if path[l-1].t == PathIndex {
+	if path[l-1].t == PathIndex && !fieldAbsent {
 		listDesc, err := getDescByPath(self.Desc, path[:l-1]...)
 		if err != nil {
 			return false, err
@@ -607,9 +617,26 @@ func (self *Value) SetByPath(sub Node, path ...Path) (exist bool, err error) {
 			desc = f.Type()
 		}
 		
+		if fieldAbsent {
+			// the target becomes the only element of the LIST/MAP, scalar elements are written packed
+			v.kt = desc.Type()
+			isPacked = desc.IsPacked()
+		}
+
 		// set sub node bytes by path and descriptor to check whether the node need to append tag
 		if err := v.setNotFound(targetPath, &sub, desc, isPacked); err != nil {
 			return false, err
+		}
+
+		if fieldAbsent && isPacked {
+			// a new packed list: [tag][length][value]. Its length is complete, updateByteLen must not add to it
+			src := sub.raw()
+			buf := protowire.AppendVarint(nil, uint64(desc.BaseId())<<3|uint64(proto.BytesType))
+			buf = protowire.AppendVarint(buf, uint64(len(src)))
+			buf = append(buf, src...)
+			sub.l = len(buf)
+			sub.v = rt.GetBytePtr(buf)
+			isPacked = false
 		}
 		// insert at the position getByPath stopped at
 		v.v = rt.AddPtr(self.v, uintptr(address[l-1]))
